@@ -98,11 +98,14 @@ Theorem map_ok s A T own page frame flags :
                forall f, own' f = own f \/ (own f = None /\ In f (firstn n (orc s)) /\ f <> 0)) /\
     (* entries of existing tables off the page's path are untouched, so are present upper-level entries *)
     (forall f p i, own f = Some p -> p ++ [i] <> firstn (S (length p)) (ixs page) -> ent s' f i = ent s f i) /\
-    (forall f p i, own f = Some p -> (length p < 3)%nat -> hw_P (ent s f i) = true -> ent s' f i = ent s f i).
+    (forall f p i, own f = Some p -> (length p < 3)%nat -> hw_P (ent s f i) = true -> ent s' f i = ent s f i) /\
+    (* at most three frames are taken; with three usable frames at the head of the oracle Map succeeds *)
+    (length (orc s) <= length (orc s') + 3)%nat /\
+    ((3 <= length (orc s))%nat -> Forall (fun x => x <> 0) (firstn 3 (orc s)) -> err = 0).
 Proof.
   intros HI H511 Hg.
   destruct (map_page_spec A T page frame flags s own HI H511 Hg) as (s' & err & own' & Hrun & HQ).
-  destruct HQ as (QI & Qenv & Qerr & (n & Qn & Qown) & Qfr & Qt & Qlook & Qoth & Qf1 & Qf2 & Qnew & Qoff & Qpres).
+  destruct HQ as (QI & Qenv & Qerr & (n & Qn & Qnb & Qown) & Qfr & Qt & Qlook & Qoth & Qf1 & Qf2 & Qnew & Qoff & Qpres & Qen).
   exists s', err, own'. split; [exact Hrun|]. split; [exact QI|]. split; [exact Qenv|]. split; [exact Qerr|].
   split.
   { intros He0. split; [exact (Qlook He0)|]. split; [|exact (Qf1 He0)].
@@ -119,7 +122,8 @@ Proof.
   split; [exact Qnew|].
   split.
   { exists n. split; [exact Qn|]. intros f. destruct (Qown f) as [E | (E1 & E2 & E3 & _)]; [left; exact E | right; repeat split; assumption]. }
-  split; [exact Qoff | exact Qpres].
+  split; [exact Qoff|]. split; [exact Qpres|].
+  split; [rewrite Qn, skipn_length; cbn [length] in Qnb; lia | exact Qen].
 Qed.
 
 (** the leaf entry is exactly frame<<12 | flags, and reads back as (frame, flags) *)
